@@ -295,6 +295,29 @@ pub fn run(args: &Args) -> i32 {
             handle(format!("d{i}"), &v, None, &mut w, &mut stats, &mut rng);
         }
     }
+    // a block-style request (Lit / Fold) inside a flow collection cannot be honoured there; the strings written AFTER the flow
+    // collection, in block context, must not inherit it
+    if decor {
+        let n = if args.num("random", 0) > 20000 { 3000 } else { 300 };
+        let after = ["demo", "line one\nline two", "x y", "with\rcr", "trailing\n", " lead", "a: b", "", "é ü", "two\n\nparas"];
+        for i in 0..n {
+            let hinted = |rng: &mut Rng| SValue::leaf(if rng.chance(1, 2) { "Fold" } else { "Lit" }, &block_text("short text", rng));
+            let flow = match rng.below(4) {
+                0 => SValue::new("FlowSeq", "", vec![SValue::new("Seq", "", vec![hinted(&mut rng)])]),
+                1 => SValue::new("FlowSeq", "", vec![SValue::new("Seq", "", vec![SValue::leaf("I", "1"), hinted(&mut rng), hinted(&mut rng)])]),
+                2 => SValue::new("FlowMap", "", vec![SValue::new("Map", "", vec![SValue::leaf("S", "k"), hinted(&mut rng)])]),
+                _ => SValue::new("FlowSeq", "", vec![SValue::new("Seq", "", vec![SValue::new("Seq", "", vec![hinted(&mut rng)])])]),
+            };
+            let next = SValue::leaf("S", rng.pick_str(&after));
+            let last = SValue::leaf("S", rng.pick_str(&after));
+            let v = match rng.below(3) {
+                0 => SValue::new("Struct", "", vec![flow, next, last]),
+                1 => SValue::new("Seq", "", vec![flow, next, last]),
+                _ => SValue::new("Map", "", vec![SValue::leaf("S", "notes"), flow, SValue::leaf("S", "name"), next, SValue::leaf("S", "z"), last]),
+            };
+            handle(format!("h{i}"), &v, Some(i as usize), &mut w, &mut stats, &mut rng);
+        }
+    }
     let nrand = args.num("random", 0);
     for i in 0..nrand {
         let d = 2 + rng.below(3);
